@@ -175,6 +175,122 @@ Proof.
 Qed.
 
 (* ------------------------------------------------------------------------------------------ *)
+(* Two mailboxes.  PID.doReceive puts a message either into the SYSTEM mailbox or into the user mailbox,
+   and every turn drains the system mailbox first (runTurn).  A sender program is a sequence of sends of
+   different kinds (Tell, the AsyncRequest envelope of ctx.Request, the AsyncResponse envelope of
+   ctx.Response, control messages such as PoisonPill); [to_system] is the routing decision.
+   What holds for EVERY routing: the messages of one sender that are routed to the user mailbox are
+   handled in send order, whatever else is sent.  Hence send order is kept between exactly those kinds
+   that doReceive routes to the user mailbox — with isControlMessage these include Tell, Request and
+   Response; routing the Request envelope to the system mailbox breaks it ([request_overtakes_tell]). *)
+Section Routing.
+  Variable kind_of : nat -> nat -> nat.     (* sender thread, sequence number -> kind of that message *)
+  Variable to_system : nat -> bool.         (* doReceive: does this kind go to the system mailbox? *)
+
+  Record rsys := mkR { usr : list Msg; sysq : list Msg; rnext : nat -> nat; rhandled : list Msg }.
+
+  Definition is_user (m : Msg) : bool := negb (to_system (kind_of (fst m) (snd m))).
+
+  Inductive rstep : rsys -> rsys -> Prop :=
+  | rs_send_user s t : to_system (kind_of t (rnext s t)) = false ->
+      rstep s (mkR (usr s ++ [(t, rnext s t)]) (sysq s) (fun x => if x =? t then S (rnext s t) else rnext s x) (rhandled s))
+  | rs_send_system s t : to_system (kind_of t (rnext s t)) = true ->
+      rstep s (mkR (usr s) (sysq s ++ [(t, rnext s t)]) (fun x => if x =? t then S (rnext s t) else rnext s x) (rhandled s))
+  | rs_handle_system s m r : sysq s = m :: r ->
+      rstep s (mkR (usr s) r (rnext s) (rhandled s ++ [m]))
+  | rs_handle_user s m r : sysq s = [] -> usr s = m :: r ->
+      rstep s (mkR r [] (rnext s) (rhandled s ++ [m])).
+
+  Inductive rreach : rsys -> Prop :=
+  | rr_init : rreach (mkR [] [] (fun _ => 0) [])
+  | rr_step s s' : rreach s -> rstep s s' -> rreach s'.
+
+  Definition useq (t : nat) (l : list Msg) : list nat :=
+    map snd (filter (fun m => (fst m =? t) && is_user m) l).
+
+  Lemma useq_app t a b : useq t (a ++ b) = useq t a ++ useq t b.
+  Proof. unfold useq. now rewrite filter_app, map_app. Qed.
+
+  Definition rinv (s : rsys) : Prop :=
+    (forall m, In m (usr s) -> is_user m = true) /\
+    (forall m, In m (sysq s) -> is_user m = false) /\
+    forall t, StronglySorted lt (useq t (rhandled s ++ usr s)) /\
+              Forall (fun q => q < rnext s t) (useq t (rhandled s ++ usr s)).
+
+  Lemma rinv_step s s' : rinv s -> rstep s s' -> rinv s'.
+  Proof.
+    intros [Hu [Hs Hl]] H. inversion H; subst; clear H; unfold rinv; cbn [usr sysq rnext rhandled].
+    - (* a send routed to the user mailbox *)
+      assert (Hm : is_user (t, rnext s t) = true) by (unfold is_user; cbn [fst snd]; now rewrite H0).
+      split; [|split; [exact Hs|]].
+      + intros m Hin. apply in_app_or in Hin. destruct Hin as [Hin|[<-|[]]]; [apply Hu; exact Hin | exact Hm].
+      + intros t'. rewrite app_assoc, useq_app. destruct (Hl t') as [S1 F1].
+        unfold useq at 2 4. cbn [filter fst snd]. rewrite Hm, andb_true_r.
+        destruct (Nat.eqb_spec t t') as [->|Ne]; cbn [map].
+        * rewrite Nat.eqb_refl. split.
+          -- apply sorted_snoc; assumption.
+          -- apply Forall_app; split; [eapply Forall_impl; [|exact F1]; simpl; lia | repeat constructor; lia].
+        * rewrite !app_nil_r. destruct (Nat.eqb_spec t' t); [congruence|]. split; assumption.
+    - (* a send routed to the system mailbox: invisible to the user-routed order *)
+      assert (Hm : is_user (t, rnext s t) = false) by (unfold is_user; cbn [fst snd]; now rewrite H0).
+      split; [exact Hu|]. split.
+      + intros m Hin. apply in_app_or in Hin. destruct Hin as [Hin|[<-|[]]]; [apply Hs; exact Hin | exact Hm].
+      + intros t'. destruct (Hl t') as [S1 F1]. split; [exact S1|].
+        destruct (Nat.eqb_spec t' t) as [->|Ne]; [|exact F1].
+        eapply Forall_impl; [|exact F1]. simpl; lia.
+    - (* the turn takes a system message first *)
+      assert (Hm : is_user m = false) by (apply Hs; rewrite H0; now left).
+      split; [exact Hu|]. split; [intros x Hx; apply Hs; rewrite H0; now right|].
+      intros t'. rewrite <- app_assoc, useq_app, useq_app. unfold useq at 2 5. cbn [filter].
+      rewrite Hm, andb_false_r. cbn [map app]. rewrite <- useq_app. apply Hl.
+    - (* ... and a user message only when the system mailbox is empty: head of the FIFO user mailbox *)
+      split; [intros x Hx; apply Hu; rewrite H1; now right|]. split; [intros x []|].
+      intros t'. replace ((rhandled s ++ [m]) ++ r) with (rhandled s ++ usr s) by (rewrite H1, <- app_assoc; reflexivity).
+      apply Hl.
+  Qed.
+
+  Lemma rreach_inv s : rreach s -> rinv s.
+  Proof.
+    induction 1; [|eapply rinv_step; eauto].
+    split; [intros m []|]. split; [intros m []|]. intros t. unfold useq. simpl. split; constructor.
+  Qed.
+
+  Theorem user_routed_fifo s t : rreach s -> StronglySorted lt (useq t (rhandled s)).
+  Proof.
+    intros Hr. destruct (rreach_inv s Hr) as [_ [_ Hl]]. destruct (Hl t) as [S1 _].
+    rewrite useq_app in S1. clear - S1.
+    induction (useq t (rhandled s)) as [|a l IH]; simpl in *; [constructor|].
+    inversion S1; subst. constructor; [apply IH; assumption|]. apply Forall_app in H2. tauto.
+  Qed.
+End Routing.
+
+(* kinds: 0 = Tell, 1 = the AsyncRequest envelope of ctx.Request.  With the routing of the code (both go to
+   the user mailbox) the whole send order of a sender is kept ... *)
+Corollary tell_and_request_in_send_order kind_of s t :
+  rreach kind_of (fun _ => false) s ->
+  StronglySorted lt (map snd (filter (fun m => fst m =? t) (rhandled s))).
+Proof.
+  intros Hr. pose proof (user_routed_fifo kind_of (fun _ => false) s t Hr) as H.
+  unfold useq, is_user in H. cbn [negb] in H.
+  erewrite filter_ext in H; [exact H|]. intros a. cbn. now rewrite andb_true_r.
+Qed.
+
+(* ... and if the Request envelope were routed to the system mailbox, a Request overtakes the Tell the
+   same sender issued before it. *)
+Theorem request_overtakes_tell :
+  exists s, rreach (fun _ q => if q =? 1 then 1 else 0) (fun k => k =? 1) s /\ rhandled s = [(0, 1); (0, 0)].
+Proof.
+  set (ko := fun (_ q : nat) => if q =? 1 then 1 else 0). set (ts := fun k : nat => k =? 1).
+  eexists. split.
+  - eapply rr_step. eapply rr_step. eapply rr_step. eapply rr_step. apply rr_init.
+    + apply (rs_send_user ko ts _ 0). reflexivity.
+    + apply (rs_send_system ko ts _ 0). reflexivity.
+    + eapply (rs_handle_system ko ts). reflexivity.
+    + eapply (rs_handle_user ko ts); reflexivity.
+  - reflexivity.
+Qed.
+
+(* ------------------------------------------------------------------------------------------ *)
 (* stash / unstash on the actor model *)
 Open Scope Z_scope.
 
